@@ -140,6 +140,8 @@ def gen_channel_data(rng, kind, allow_empty=True):
         t = DT_TO_T[kind['dtype']]
         d['hex'] = gen.gen_values(rng, t, n).hex()
         d['view'] = rng.random() < 0.15       # non-contiguous view of a larger array
+        r_ = rng.random()
+        d['arr'] = 'readonly' if r_ < 0.05 else ('reversed' if r_ < 0.1 else None)   # other legal array kinds
         # same values held in a big-endian (non-native) array; never empty: an empty array of a dtype the
         # writer cannot map has no determinable TDMS type and is written as a channel without data
         d['be'] = n > 0 and rng.random() < 0.04
@@ -326,6 +328,10 @@ def make_data(nptdms, d):
             a = big[::2]
         if d.get('be'):
             a = a.astype(a.dtype.newbyteorder('>'))
+        if d.get('arr') == 'reversed':
+            a = a[::-1].copy()[::-1]          # the same values through a negative stride
+        elif d.get('arr') == 'readonly':
+            a.flags.writeable = False
         return a
     if form == 'list-int':
         return list(d['ints'])
